@@ -224,8 +224,8 @@ pub fn run_limit_s(tier: Tier) -> u64 {
         .ok()
         .and_then(|s| s.parse().ok())
         .unwrap_or(match tier {
-            Tier::Quick => 300,
-            Tier::Thorough => 1800,
+            Tier::Quick => 900,
+            Tier::Thorough => 3600,
         })
 }
 
